@@ -1289,7 +1289,7 @@ def _gather_avx2(ex, st, ins, args, m):
     return out + [(0, False)] * (n_out - n)
 
 
-@model(r'llvm\.x86\.avx512\.mask\.gather(3?)(div|siv)?\.?(\w+?)(\.\d+)?')
+@model(r'llvm\.x86\.avx512\.mask\.gather[\w.]*')
 def _gather_512(ex, st, ins, args, m):
     # (src, base i8*, index, <N x i1> mask, i32 scale)
     n_out = ins.ty.n
@@ -1306,7 +1306,7 @@ def _gather_512(ex, st, ins, args, m):
     return out + [(0, False)] * (n_out - n)
 
 
-@model(r'llvm\.x86\.avx512\.mask\.scatter(div|siv)?\.?(\w+?)(\.\d+)?')
+@model(r'llvm\.x86\.avx512\.mask\.scatter[\w.]*')
 def _scatter_512(ex, st, ins, args, m):
     # (base i8*, <N x i1> mask, index, data, i32 scale)
     base = ex.resolve(st, vals(args[0])[0][0])
